@@ -97,13 +97,24 @@ func (a *idxAnalyzer) entryZone() *zone {
 // summariseDeltas computes, for every cursor field the method only increases, the least
 // advance over all exits, unconditionally and under "field < len(text)" at entry.
 func (a *idxAnalyzer) summariseDeltas(fn *types.Func, fd *ast.FuncDecl) {
-	if a.curRecvT == nil || len(a.mono[fn]) == 0 {
+	if a.curRecvT == nil || len(a.writes[fn]) == 0 {
 		return
 	}
 	res := map[string]fieldDelta{}
 	fields := []string{}
-	for f := range a.mono[fn] {
-		fields = append(fields, f)
+	st, _ := a.curRecvT.Underlying().(*types.Struct)
+	for f := range a.writes[fn] {
+		isInt := false
+		if st != nil {
+			for i := 0; i < st.NumFields(); i++ {
+				if st.Field(i).Name() == f && isIntType(st.Field(i).Type()) {
+					isInt = true
+				}
+			}
+		}
+		if isInt {
+			fields = append(fields, f)
+		}
 	}
 	sort.Strings(fields)
 	for _, f := range fields {
@@ -236,6 +247,9 @@ func (a *idxAnalyzer) sameRecvCall(z *zone, call *ast.CallExpr) bool {
 		}
 	}
 	if !known {
+		if idxDebug != "" {
+			fmt.Printf("IDXDEBUG unknown-writes callee %s at %s\n", callee.Name(), a.r.pos(call.Pos()))
+		}
 		a.forgetFields(z, rk, nil)
 	} else {
 		fs := []string{}
@@ -244,7 +258,11 @@ func (a *idxAnalyzer) sameRecvCall(z *zone, call *ast.CallExpr) bool {
 		}
 		sort.Strings(fs)
 		for _, f := range fs {
-			if a.mono[callee][f] {
+			effMono := a.mono[callee][f]
+			if d, ok := a.delta[callee][f]; ok && d.hasU && d.uncond >= 0 {
+				effMono = true // every exit leaves the field at or beyond its entry value (e.g. backtracking restores it)
+			}
+			if effMono {
 				if d, ok := a.delta[callee][f]; ok && d.hasOK && d.okD > 0 {
 					pre := fmt.Sprintf("pre#%d:%s", call.Pos(), f)
 					z.forget(pre)
@@ -261,8 +279,17 @@ func (a *idxAnalyzer) sameRecvCall(z *zone, call *ast.CallExpr) bool {
 						by = d.cond
 					}
 				}
+				if idxDebug != "" && strings.Contains(a.r.pos(call.Pos()), idxDebug) {
+					fmt.Printf("IDXDEBUG samerecv %s %s.%s by=%d delta=%+v lt=%v\n", a.r.pos(call.Pos()), callee.Name(), f, by, a.delta[callee][f], z.le(rk+"."+f, "len("+rk+".input)", -1))
+				}
 				z.grow(rk+"."+f, by)
+				if idxDebug != "" && strings.Contains(a.r.pos(call.Pos()), idxDebug) && f == "pos" {
+					fmt.Printf("   after grow: %s\n", z.dump())
+				}
 			} else {
+				if idxDebug != "" && f == "pos" {
+					fmt.Printf("IDXDEBUG non-mono pos: callee %s at %s\n", callee.Name(), a.r.pos(call.Pos()))
+				}
 				z.forget(rk + "." + f)
 			}
 		}
